@@ -70,3 +70,16 @@ def _(self, node, expected_type):
               and prefix_of(old(sav_trace()), sav_trace()))
     invariant(2, lambda _i: prefix_of(old(sav_trace()) + sav_order(
         the(rec(old(node), expected_type))), sav_trace()))
+
+
+@contract("yatiml/loader.py::Loader.get_single_node")
+def _(self):
+    properties('C01', 'C02', 'C08')
+    requires(wf_ty(document_type()))
+    traces()
+    result_sort('node')
+    raises(RecognitionError)
+    raises(YAMLError)
+    # every document -- also the empty one -- is processed for the document
+    # type before it is handed to the constructors
+    ensures(proc_rel(composed_document(), document_type(), result))
